@@ -53,23 +53,36 @@ Record gst := mkgst {
 Definition genesis_auth : N := 238.
 Definition ginit : gst := mkgst [] [] 0 [(0, genesis_auth)] [(0, 0)] O.
 
-(* BlockState.IsDescendantOf(a, d) *)
+(* The model is parameterised by which of the five repairs fixes/C23-*.patch are applied:
+   `fixed` = the repaired code (all five), `prefix` = the pinned code. *)
+Record variant := mkvariant {
+  v_pred_lex : bool;            (* C23-forced-change-order: lexicographic sort.Search predicate *)
+  v_forced_at_bestfin : bool;   (* C23-forced-change-setid-block *)
+  v_keep_ancestors : bool;      (* C23-scheduled-prune-keeps-ancestors *)
+  v_unknown_unrelated : bool;   (* C23-pruned-fork-ancestry: ErrNotFound => not a descendant *)
+  v_sched_at_finalized : bool   (* C23-scheduled-change-setid-block *)
+}.
+Definition fixed : variant := mkvariant true true true true true.
+Definition prefix : variant := mkvariant false false false false false.
+
+(* BlockState.IsDescendantOf(a, d) (GrandpaState.isDescendantOf after the repair) *)
 Definition known (t : tree) (fin x : nat) : bool := is_anc t x fin || is_anc t fin x.
-Definition desc (t : tree) (fin a d : nat) : option bool :=
+Definition desc (v : variant) (t : tree) (fin a d : nat) : option bool :=
   if Nat.eqb a d then Some true
-  else if known t fin a && known t fin d then Some (is_anc t a d) else None.
+  else if known t fin a && known t fin d then Some (is_anc t a d)
+  else if v_unknown_unrelated v then Some false else None.
 
 (* ---- orderedPendingChanges ---- *)
 (* the duplicate / one-per-fork check of importChange *)
-Fixpoint forced_check (t : tree) (fin : nat) (l : list pchange) (c : pchange) : option bool :=
+Fixpoint forced_check (v : variant) (t : tree) (fin : nat) (l : list pchange) (c : pchange) : option bool :=
   match l with
   | [] => Some true
   | x :: r =>
     if Nat.eqb (pc_blk x) (pc_blk c) then Some false              (* errDuplicateHashes *)
-    else match desc t fin (pc_blk x) (pc_blk c) with
+    else match desc v t fin (pc_blk x) (pc_blk c) with
          | None => None
          | Some true => Some false                                (* errAlreadyHasForcedChange *)
-         | Some false => forced_check t fin r c
+         | Some false => forced_check v t fin r c
          end
   end.
 
@@ -110,33 +123,49 @@ Fixpoint lookup_where {A} (cond : A -> option bool) (l : list A) : option (optio
               end
   end.
 
-Definition forced_applicable_cond (t : tree) (fin b : nat) (c : pchange) : option bool :=
+Definition forced_applicable_cond (v : variant) (t : tree) (fin b : nat) (c : pchange) : option bool :=
   if Nat.eqb b (pc_blk c) && (eff t c =? number t b) then Some true
-  else match desc t fin (pc_blk c) b with
+  else match desc v t fin (pc_blk c) b with
        | None => None
        | Some d => Some (d && (eff t c =? number t b))
        end.
 
 (* pruneChanges of both containers: keep the entries that descend from `h` *)
-Fixpoint prune_keep {A} (blk : A -> nat) (t : tree) (fin h : nat) (l : list A) : option (list A) :=
+Fixpoint prune_keep {A} (v : variant) (blk : A -> nat) (t : tree) (fin h : nat) (l : list A) : option (list A) :=
   match l with
   | [] => Some []
-  | x :: r => match desc t fin h (blk x) with
+  | x :: r => match desc v t fin h (blk x) with
               | None => None
-              | Some d => match prune_keep blk t fin h r with
+              | Some d => match prune_keep v blk t fin h r with
                           | None => None
                           | Some r' => Some (if d then x :: r' else r')
                           end
               end
   end.
 
+(* changeTree.pruneChanges after the repair: roots that descend from h or are ancestors of h *)
+Fixpoint prune_keep_anc (v : variant) (t : tree) (fin h : nat) (l : list node) : option (list node) :=
+  match l with
+  | [] => Some []
+  | x :: r => match desc v t fin h (pc_blk (n_change x)) with
+              | None => None
+              | Some d => match desc v t fin (pc_blk (n_change x)) h with
+                          | None => None
+                          | Some a => match prune_keep_anc v t fin h r with
+                                      | None => None
+                                      | Some r' => Some (if d || a then x :: r' else r')
+                                      end
+                          end
+              end
+  end.
+
 (* ---- changeTree ---- *)
 (* pendingChangeNode.importNode: None = error, Some None = not imported here *)
-Fixpoint import_node (t : tree) (fin : nat) (c : pchange) (n : node) : option (option node) :=
+Fixpoint import_node (v : variant) (t : tree) (fin : nat) (c : pchange) (n : node) : option (option node) :=
   match n with
   | Node nc ch =>
     if Nat.eqb (pc_blk c) (pc_blk nc) then None                       (* errDuplicateHashes *)
-    else match desc t fin (pc_blk nc) (pc_blk c) with
+    else match desc v t fin (pc_blk nc) (pc_blk c) with
          | None => None
          | Some false => Some None
          | Some true =>
@@ -145,7 +174,7 @@ Fixpoint import_node (t : tree) (fin : nat) (c : pchange) (n : node) : option (o
              let fix into (l : list node) : option (option (list node)) :=
                match l with
                | [] => Some None
-               | x :: r => match import_node t fin c x with
+               | x :: r => match import_node v t fin c x with
                            | None => None
                            | Some (Some x') => Some (Some (x' :: r))
                            | Some None => match into r with
@@ -162,13 +191,13 @@ Fixpoint import_node (t : tree) (fin : nat) (c : pchange) (n : node) : option (o
              end
          end
   end.
-Fixpoint import_roots (t : tree) (fin : nat) (c : pchange) (l : list node) : option (list node) :=
+Fixpoint import_roots (v : variant) (t : tree) (fin : nat) (c : pchange) (l : list node) : option (list node) :=
   match l with
   | [] => Some [Node c []]
-  | x :: r => match import_node t fin c x with
+  | x :: r => match import_node v t fin c x with
               | None => None
               | Some (Some x') => Some (x' :: r)
-              | Some None => match import_roots t fin c r with
+              | Some None => match import_roots v t fin c r with
                              | None => None
                              | Some r' => Some (x :: r')
                              end
@@ -176,81 +205,84 @@ Fixpoint import_roots (t : tree) (fin : nat) (c : pchange) (l : list node) : opt
   end.
 
 (* findApplicableChange condition; the errUnfinalizedAncestor case is an error too *)
-Fixpoint child_check (t : tree) (fin h : nat) (ch : list node) : option bool :=
+Fixpoint child_check (v : variant) (t : tree) (fin h : nat) (ch : list node) : option bool :=
   match ch with
   | [] => Some true
-  | x :: r => match desc t fin (pc_blk (n_change x)) h with
+  | x :: r => match desc v t fin (pc_blk (n_change x)) h with
               | None => None
               | Some d => if (number t (pc_blk (n_change x)) <=? number t h) && d then None
-                          else child_check t fin h r
+                          else child_check v t fin h r
               end
   end.
-Definition sched_applicable_cond (t : tree) (fin h : nat) (n : node) : option bool :=
+Definition sched_applicable_cond (v : variant) (t : tree) (fin h : nat) (n : node) : option bool :=
   let c := n_change n in
   if number t h <? eff t c then Some false
-  else match (if Nat.eqb h (pc_blk c) then Some true else desc t fin (pc_blk c) h) with
+  else match (if Nat.eqb h (pc_blk c) then Some true else desc v t fin (pc_blk c) h) with
        | None => None
        | Some false => Some false
-       | Some true => child_check t fin h (n_children n)
+       | Some true => child_check v t fin h (n_children n)
        end.
 
 (* ---- GrandpaState ---- *)
 Inductive result := ROk | RErrDigest | RErrForced | RErrSched.
 
-Definition add_forced (pred : tree -> list pchange -> pchange -> nat -> bool)
-  (t : tree) (s : gst) (c : pchange) : option gst :=
-  match forced_check t (g_fin s) (g_forced s) c with
-  | Some true => Some (mkgst (forced_insert pred t (g_forced s) c) (g_roots s) (g_setid s)
+Definition add_forced (v : variant) (t : tree) (s : gst) (c : pchange) : option gst :=
+  match forced_check v t (g_fin s) (g_forced s) c with
+  | Some true => Some (mkgst (forced_insert (if v_pred_lex v then fixed_pred else prefix_pred) t (g_forced s) c) (g_roots s) (g_setid s)
                              (g_auths s) (g_changes s) (g_fin s))
   | _ => None
   end.
-Definition add_scheduled (t : tree) (s : gst) (c : pchange) : option gst :=
-  match import_roots t (g_fin s) c (g_roots s) with
+Definition add_scheduled (v : variant) (t : tree) (s : gst) (c : pchange) : option gst :=
+  match import_roots v t (g_fin s) c (g_roots s) with
   | Some r => Some (mkgst (g_forced s) r (g_setid s) (g_auths s) (g_changes s) (g_fin s))
   | None => None
   end.
 
 (* ApplyForcedChanges(header of block b) *)
-Definition apply_forced (t : tree) (s : gst) (b : nat) : option gst :=
-  match lookup_where (forced_applicable_cond t (g_fin s) b) (g_forced s) with
+Definition apply_forced (v : variant) (t : tree) (s : gst) (b : nat) : option gst :=
+  match lookup_where (forced_applicable_cond v t (g_fin s) b) (g_forced s) with
   | None => None
   | Some None => Some s
   | Some (Some fc) =>
     match lookup_where (fun n : node =>
              if pc_bestfin fc <? eff t (n_change n) then Some false
-             else desc t (g_fin s) (pc_blk (n_change n)) (pc_blk fc)) (g_roots s) with
+             else desc v t (g_fin s) (pc_blk (n_change n)) (pc_blk fc)) (g_roots s) with
     | None => None
     | Some (Some _) => None                                   (* errPendingScheduledChanges *)
     | Some None =>
       let cur := g_setid s in
-      let ch1 := aput (g_changes s) cur (pc_bestfin fc) in    (* setChangeSetIDAtBlock(currentSetID, bestFinalized) *)
       let new := cur + 1 in
-      Some (mkgst [] [] new (aput (g_auths s) new (pc_auth fc)) (aput ch1 new (eff t fc)) (g_fin s))
+      let chs := if v_forced_at_bestfin v then aput (g_changes s) new (pc_bestfin fc)
+                 else (* pinned: setChangeSetIDAtBlock(currentSetID, bestFinalized) then (newSetID, effective) *)
+                   aput (aput (g_changes s) cur (pc_bestfin fc)) new (eff t fc) in
+      Some (mkgst [] [] new (aput (g_auths s) new (pc_auth fc)) chs (g_fin s))
     end
   end.
 
 (* ApplyScheduledChanges(header of block h); the block state has already finalised h.
    Returns the new state and whether an error was returned (the forced-change pruning that
    precedes the error is kept, as in the Go code). *)
-Definition apply_scheduled (t : tree) (s : gst) (h : nat) : gst * bool :=
-  match prune_keep pc_blk t (g_fin s) h (g_forced s) with
+Definition apply_scheduled (v : variant) (t : tree) (s : gst) (h : nat) : gst * bool :=
+  match prune_keep v pc_blk t (g_fin s) h (g_forced s) with
   | None => (s, false)
   | Some fo =>
     let s1 := mkgst fo (g_roots s) (g_setid s) (g_auths s) (g_changes s) (g_fin s) in
     match g_roots s with
     | [] => (s1, true)
     | _ =>
-      match lookup_where (sched_applicable_cond t (g_fin s) h) (g_roots s) with
+      match lookup_where (sched_applicable_cond v t (g_fin s) h) (g_roots s) with
       | None => (s1, false)
       | Some None =>
-        match prune_keep (fun n => pc_blk (n_change n)) t (g_fin s) h (g_roots s) with
+        match (if v_keep_ancestors v then prune_keep_anc v t (g_fin s) h (g_roots s)
+               else prune_keep v (fun n => pc_blk (n_change n)) t (g_fin s) h (g_roots s)) with
         | None => (s1, false)
         | Some r => (mkgst fo r (g_setid s) (g_auths s) (g_changes s) (g_fin s), true)
         end
       | Some (Some n) =>
         let new := g_setid s + 1 in
         (mkgst fo (n_children n) new (aput (g_auths s) new (pc_auth (n_change n)))
-               (aput (g_changes s) new (eff t (n_change n))) (g_fin s), true)
+               (aput (g_changes s) new (if v_sched_at_finalized v then number t h else eff t (n_change n)))
+               (g_fin s), true)
       end
     end
   end.
@@ -261,27 +293,26 @@ Definition changes := list (nat * pchange).      (* block -> change *)
 Fixpoint cfind (l : changes) (b : nat) : option pchange :=
   match l with [] => None | (b', c) :: r => if Nat.eqb b' b then Some c else cfind r b end.
 
-Definition go_step (pred : tree -> list pchange -> pchange -> nat -> bool)
-  (t : tree) (sched forced : changes) (s : gst) (e : event) : gst * result :=
+Definition go_step (v : variant) (t : tree) (sched forced : changes) (s : gst) (e : event) : gst * result :=
   match e with
   | Import b =>
     let s1 := match cfind forced b with
-              | Some c => add_forced pred t s c
+              | Some c => add_forced v t s c
               | None => match cfind sched b with
-                        | Some c => add_scheduled t s c
+                        | Some c => add_scheduled v t s c
                         | None => Some s
                         end
               end in
     match s1 with
     | None => (s, RErrDigest)
-    | Some s1 => match apply_forced t s1 b with
+    | Some s1 => match apply_forced v t s1 b with
                  | None => (s1, RErrForced)
                  | Some s2 => (s2, ROk)
                  end
     end
   | Finalise b =>
     let s0 := mkgst (g_forced s) (g_roots s) (g_setid s) (g_auths s) (g_changes s) b in
-    let '(s1, ok) := apply_scheduled t s0 b in
+    let '(s1, ok) := apply_scheduled v t s0 b in
     (s1, if ok then ROk else RErrSched)
   end.
 
@@ -307,8 +338,8 @@ Definition go_setid_by_number (s : gst) (n : N) : option N :=
   setid_loop (S (S (N.to_nat (g_setid s)))) (g_changes s) n (g_setid s).
 
 (* NextGrandpaAuthorityChange: None = error, Some None = ErrNoNextAuthorityChange *)
-Definition go_next_change (t : tree) (s : gst) (best : nat) : option (option N) :=
-  let cond (c : pchange) := match desc t (g_fin s) (pc_blk c) best with
+Definition go_next_change (v : variant) (t : tree) (s : gst) (best : nat) : option (option N) :=
+  let cond (c : pchange) := match desc v t (g_fin s) (pc_blk c) best with
                             | None => None
                             | Some d => Some (d && (eff t c <=? number t best))
                             end in
